@@ -230,3 +230,18 @@ package thrift_reflection
 //@   trusted
 //@   pure
 //@   ensures td.IsTypedef() ==> result0 != nil && result1 == nil
+
+// Lookup by (possibly qualified) name, the engine of every FileDescriptor.Get*Descriptor (C15 "lookups by name find the
+// right entry across included files"): an unqualified name is looked up in the file itself, a qualified one ONLY in the
+// file its prefix denotes in this file's include table, with the prefix stripped.
+//@ func (f *FileDescriptor) GetIncludeFD(alias string) *FileDescriptor
+//@   trusted
+//@   pure
+//@ func (f *FileDescriptor) getDescriptor(name string, lookupFunc func(fd *FileDescriptor, name string) interface{}) interface{}
+//@   modifies *
+//@   ensures old(f == nil || name == "") ==> result == nil && ncalls("lookupFunc") == 0
+//@   ensures old(f != nil && name != "") ==> ncalls("utils.ParseAlias") == 1 && callarg("utils.ParseAlias", 0) == old(name)
+//@   ensures old(f != nil && name != "") && callret("utils.ParseAlias", 0) == "" ==> ncalls("lookupFunc") == 1 && callarg("lookupFunc", 0) == f && callarg("lookupFunc", 1) == callret("utils.ParseAlias", 1) && result == callret("lookupFunc", 0)
+//@   ensures old(f != nil && name != "") && callret("utils.ParseAlias", 0) != "" ==> ncalls("lookupFunc") == 0 && ncalls("f.GetIncludeFD") == 1 && callarg("f.GetIncludeFD", 0) == callret("utils.ParseAlias", 0)
+//@   ensures old(f != nil && name != "") && callret("utils.ParseAlias", 0) != "" && callret("f.GetIncludeFD", 0) != nil ==> ncalls("fromFd.getDescriptor") == 1 && callrecv("fromFd.getDescriptor") == callret("f.GetIncludeFD", 0) && callarg("fromFd.getDescriptor", 0) == callret("utils.ParseAlias", 1) && result == callret("fromFd.getDescriptor", 0)
+//@   ensures old(f != nil && name != "") && callret("utils.ParseAlias", 0) != "" && callret("f.GetIncludeFD", 0) == nil ==> result == nil
